@@ -57,23 +57,28 @@ def size_of(desc):
 
 
 class Failures:
-    """keeps at most `per_key` witnesses per key, preferring the smallest models; counts all"""
+    """keeps at most `per_key` witnesses per key, preferring the smallest models; counts all.
+    Failures added with uncapped=True (fixed, seed-independent case lists: one entry per witness id) are all kept."""
 
     def __init__(self, per_key=2):
         self.per_key = per_key
         self.by_key = {}
         self.counts = {}
+        self.fixed = {}
 
-    def add(self, key, failure, replay, size=0):
+    def add(self, key, failure, replay, size=0, witness=None, uncapped=False):
+        if uncapped:
+            self.fixed[(key, witness)] = {"key": key, "witness": witness, "failure": failure, "replay": replay}
+            return
         self.counts[key] = self.counts.get(key, 0) + 1
         lst = self.by_key.setdefault(key, [])
-        lst.append((size, len(lst), {"key": key, "failure": failure, "replay": replay}))
+        lst.append((size, len(lst), {"key": key, "witness": witness, "failure": failure, "replay": replay}))
         lst.sort(key=lambda t: (t[0], t[1]))
         del lst[self.per_key:]
 
     def merge(self, items):
-        for key, failure, replay, size in items:
-            self.add(key, failure, replay, size)
+        for it in items:
+            self.add(*it)
 
     def as_list(self):
         out = []
@@ -82,6 +87,14 @@ class Failures:
                 f = dict(f)
                 f["failure"] = f["failure"] + f" [{self.counts[key]} case(s) with this key in this run]"
                 out.append(f)
+        for k in sorted(self.fixed, key=lambda t: (t[0], str(t[1]))):
+            out.append(dict(self.fixed[k]))
+        return out
+
+    def witnesses(self):
+        out = {}
+        for (key, w) in sorted(self.fixed, key=lambda t: (t[0], str(t[1]))):
+            out.setdefault(key, []).append(w)
         return out
 
 
